@@ -1145,31 +1145,82 @@ func min(a, b int) int {
 
 // ---------- exhaustive small space ----------
 
-// smallBodies enumerates every item body over a small token alphabet up to the given length.
-func smallBodies(maxLen int) [][]byte {
-	alpha := [][]byte{
-		{0x10, 0xe8, 0x07},       // type_id 1000 (known: Ext1)
-		{0x10, 0xe9, 0x07},       // type_id 1001 (known: Ext2)
-		{0x10, 0x88, 0x27},       // type_id 5000 (unknown)
-		{0x1a, 0x02, 0x08, 0x01}, // message {1: 1}
-		{0x1a, 0x02, 0x10, 0x02}, // message {2: 2}
-		{0x1a, 0x00},             // message, empty
-		{0x1a, 0x81, 0x00, 0x0a}, // message, non-minimal length prefix, 1 byte (not a valid payload on its own)
-		{0x28, 0x05},             // another field (5, varint)
-	}
-	out := [][]byte{{}}
-	level := [][]byte{{}}
+// alphaTok is one field of the small alphabet, with what it means.
+type alphaTok struct {
+	enc     []byte
+	id      uint64 // type_id token: the id
+	isMsg   bool   // message token: raw = length prefix ++ payload as written
+	raw     []byte
+	payload []byte
+}
+
+var alpha = []alphaTok{
+	{enc: []byte{0x10, 0xe8, 0x07}, id: 1000}, // type_id 1000 (known: Ext1)
+	{enc: []byte{0x10, 0xe9, 0x07}, id: 1001}, // type_id 1001 (known: Ext2)
+	{enc: []byte{0x10, 0x88, 0x27}, id: 5000}, // type_id 5000 (unknown)
+	{enc: []byte{0x1a, 0x02, 0x08, 0x01}, isMsg: true, raw: []byte{0x02, 0x08, 0x01}, payload: []byte{0x08, 0x01}}, // message {1: 1}
+	{enc: []byte{0x1a, 0x02, 0x10, 0x02}, isMsg: true, raw: []byte{0x02, 0x10, 0x02}, payload: []byte{0x10, 0x02}}, // message {2: 2}
+	{enc: []byte{0x1a, 0x00}, isMsg: true, raw: []byte{0x00}, payload: nil},                                         // message, empty
+	{enc: []byte{0x1a, 0x81, 0x00, 0x0a}, isMsg: true, raw: []byte{0x81, 0x00, 0x0a}, payload: []byte{0x0a}},       // non-minimal length prefix
+	{enc: []byte{0x28, 0x05}}, // another field (5, varint)
+}
+
+// smallBodies enumerates every item body over the alphabet up to the given length (as index sequences).
+func smallBodies(maxLen int) [][]int {
+	out := [][]int{{}}
+	level := [][]int{{}}
 	for l := 0; l < maxLen; l++ {
-		var next [][]byte
+		var next [][]int
 		for _, pre := range level {
-			for _, a := range alpha {
-				next = append(next, append(append([]byte(nil), pre...), a...))
+			for a := range alpha {
+				next = append(next, append(append([]int(nil), pre...), a))
 			}
 		}
 		out = append(out, next...)
 		level = next
 	}
 	return out
+}
+
+func bodyBytes(seq []int) []byte {
+	var b []byte
+	for _, a := range seq {
+		b = append(b, alpha[a].enc...)
+	}
+	return b
+}
+
+// refConsume: what ConsumeFieldValue has to return on a body of alphabet fields followed by the end
+// marker, written from the format's rules (last type id; message fields concatenated; others skipped).
+func refConsume(seq []int, wantLen bool) string {
+	var id uint64
+	var payload, raw []byte
+	nmsg := 0
+	n := 1
+	for _, a := range seq {
+		t := alpha[a]
+		n += len(t.enc)
+		switch {
+		case t.isMsg:
+			nmsg++
+			payload = append(payload, t.payload...)
+			raw = t.raw
+		case t.id != 0:
+			id = t.id
+		}
+	}
+	m := payload
+	if wantLen {
+		switch nmsg {
+		case 0:
+			m = []byte{0}
+		case 1:
+			m = raw
+		default:
+			m = protowire.AppendBytes(nil, payload)
+		}
+	}
+	return fmt.Sprintf("ok %d %s %d", id, vh.Hex(m), n)
 }
 
 // ---------- the run ----------
@@ -1224,11 +1275,17 @@ func runC47(c *C) {
 	// exhaustive small space of item bodies
 	maxLen := c.N(3, 4)
 	bodies := smallBodies(maxLen)
-	for _, body := range bodies {
+	for _, seq := range bodies {
 		if c.Failed() {
 			return
 		}
+		body := bodyBytes(seq)
 		full := append(append([]byte(nil), body...), 0x0c)
+		for _, w := range []bool{false, true} {
+			c.Check(implConsume(append(append([]byte(nil), full...), 0x0b), w) == refConsume(seq, w),
+				"ConsumeFieldValue: not (last type id, concatenated message fields, length) on a body of well-formed fields",
+				map[string]any{"fn": "ConsumeFieldValue", "wantLen": w, "hex": vh.Hex(full)}, "")
+		}
 		checkConsume(c, full)
 		checkConsume(c, body) // no end marker
 		c.Hist("L1:small-body")
@@ -1237,14 +1294,15 @@ func runC47(c *C) {
 	// pairs of items: all pairs of bodies up to length 2 in the thorough tier, all pairs up to length 1 plus a
 	// sample in the quick tier
 	pairs := smallBodies(2)
-	for i, a := range pairs {
-		for j, b := range pairs {
+	for i, sa := range pairs {
+		for j, sb := range pairs {
 			if c.Failed() {
 				return
 			}
 			if !c.Thorough() && (i > 8 || j > 8) && c.Rand.Intn(8) != 0 {
 				continue
 			}
+			a, b := bodyBytes(sa), bodyBytes(sb)
 			x := append(append(append([]byte{0x0b}, a...), 0x0c, 0x0b), append(append([]byte(nil), b...), 0x0c)...)
 			runBytesCase(c, p, &Case{Kind: "bytes", Type: "messagesetpb", Hex: vh.Hex(x)})
 			c.Hist("L2:item-pair")
